@@ -11,6 +11,7 @@ from .common import pmap, result
 from .C01 import _cls
 XS = 'xmlns:xs="http://www.w3.org/2001/XMLSchema"'
 SCHEMA = f'''<xs:schema {XS} targetNamespace="urn:t" xmlns:t="urn:t" elementFormDefault="qualified">
+ <xs:element name="archive"><xs:complexType><xs:sequence><xs:element name="a" type="xs:date" maxOccurs="unbounded"/><xs:element name="d" type="xs:int" minOccurs="0"/></xs:sequence></xs:complexType></xs:element>
  <xs:element name="r"><xs:complexType><xs:sequence>
    <xs:element name="a" maxOccurs="unbounded"><xs:complexType><xs:sequence>
        <xs:element name="v" type="xs:int" maxOccurs="unbounded"/>
@@ -74,6 +75,12 @@ def eval_doc(args):
                 # a uniqueness error relates two nodes of one scope element (a): when a single v is selected its partner lies outside the part, so
                 # the error is not an error "of that part"; it is compared for parts that contain the scope element and for non-positional paths
                 if e.tag.endswith('}v'): want = [w for w in want if not w.startswith('duplicated value')]
+                if parent[e] is root:
+                    # the same part named relative to the document root ('t:a[2]', './t:a[2]'): the schema path is derived from the root's own declaration, not from any global
+                    rel = p.split('/', 2)[2]
+                    for rp in (rel, './' + rel):
+                        rerrs = [x.reason for x in s.iter_errors(res, path=rp, namespaces=NS)]
+                        if sorted(rerrs) != sorted(perrs): bad.append(('relative path', rp, rerrs[:2], perrs[:2]))
                 if sorted(perrs) != sorted(want):
                     if e.tag.endswith('}w') and 'xmlns:p' in doc and [x for x in perrs if 'unmapped prefix' not in x] == [x for x in want if 'unmapped prefix' not in x]: known.append(p)
                     else: bad.append(('partial errors', p, perrs[:2], want[:2]))
